@@ -42,7 +42,7 @@ def space(tier: str) -> List[scope.Case]:
     if tier not in _SPACE_CACHE:
         quick = tier == "quick"
         cases = scope.sing_space(tier) + scope.comb_space(2 if quick else 3) \
-            + scope.tree_space(4 if quick else 5) + scope.homonym_space()
+            + scope.tree_space(4 if quick else 5) + scope.homonym_space() + scope.empty_space()
         # canonical de-duplication: same printed schema (names normalised) explored once
         seen, out = set(), []
         for c in cases:
